@@ -75,4 +75,9 @@ example : Gen.setResultBase false 2 1 = (true, 1) ∧ Gen.setResultBase false 1 
 from the new log list -/
 theorem history_facts : Gen.refreshReplacesRoots = true ∧ Gen.restartAlwaysRebuilds = true := by decide
 
+/-- the root pools are read (`Included`, `CertPool`, `RawCertificates`, `Subjects`) by submissions that hold only the
+distributor's READ lock — the lock table counts those as reads of `rootPool` / `logRoots` — so the read-only methods of
+`x509util.PEMCertPool` must not write the pool: none of them assigns a field or adds a certificate -/
+theorem shared_pool_getters_pure : Gen.pemCertPoolGettersPure = true := by decide
+
 end CTV.Props.C17Tie
